@@ -204,7 +204,10 @@ def check_api(case, rec):
                    for k, i in enumerate(chosen)}
         arg = deepcopy(mapping)
         was_none = t.metadata(axis=axis) is None
-        t.add_metadata(arg, axis=axis)
+        if len(mapping) % 2:
+            t.add_metadata(arg, axis)          # positional
+        else:
+            t.add_metadata(arg, axis=axis)
         if not any(i in mapping for i in ids):
             # nothing to add: the table is observably what it was, including
             # whether the axis has metadata at all
@@ -225,7 +228,10 @@ def check_api(case, rec):
     else:
         axis = case["axis"]
         keys = case["keys"]
-        t.del_metadata(keys=keys, axis=axis)
+        if keys is not None and len(keys) % 2:
+            t.del_metadata(keys, axis)         # positional
+        else:
+            t.del_metadata(keys=keys, axis=axis)
         want = {}
         for ax in ("observation", "sample"):
             md = ref.md(ax)
